@@ -139,13 +139,19 @@ class C20(Prop):
                 vis, col = int(cur[1]), cur[2] == "1"
                 shown = []
 
+                fanout = []
+
                 def disp(x, top):
                     shown.append(x)
                     if (x[2] and col) or not (vis < x[1]):
+                        fanout.append(0)
                         return
+                    fanout.append(len(x[3]))
                     for k in x[3]:
                         disp(k, False)
                 disp(d, True)
+                self._fanout = sorted(fanout)
+                self._names = names
                 if len(set(names)) != len(names):
                     out.append(viol("unique-names", "dot node names are not unique: %s" % names))
                 if len(names) != len(shown):
@@ -156,6 +162,19 @@ class C20(Prop):
                 edges = l[2:].split()
                 if len(edges) != getattr(self, "_n", 1) - 1:
                     out.append(viol("edge-count", "%d edges for %d nodes" % (len(edges), self._n)))
+                else:
+                    # one edge per displayed parent-child link: every node but one has exactly one incoming edge, and
+                    # the numbers of outgoing edges are the numbers of displayed children
+                    src = [e.split(">")[0] for e in edges]
+                    dst = [e.split(">")[1] for e in edges]
+                    names = getattr(self, "_names", [])
+                    if len(set(dst)) != len(dst):
+                        out.append(viol("edge-links", "a dot node has two incoming edges: %s" % sorted(dst)))
+                    elif len(set(names)) == len(names):
+                        got = sorted(src.count(nm) for nm in names)
+                        if got != getattr(self, "_fanout", got):
+                            out.append(viol("edge-links", "outgoing edges per node %s, displayed children per behaviour %s"
+                                            % (got, self._fanout)))
             if len(out) > 3:
                 break
         return out
